@@ -787,12 +787,6 @@ def write_pam(matrix, matrix_size, out, scale=1, border=None, dark='#000', light
             See `color` for valid values. In addition, ``None`` is
             accepted which indicates a transparent background.
     """
-    def invert_row_bits(row):
-        """\
-        Inverts the row bits 0 -> 1, 1 -> 0
-        """
-        return bytearray([b ^ 0x1 for b in row])
-
     def row_to_color_values(row, colours):
         return b''.join(colours[b] for b in row)
 
@@ -800,31 +794,24 @@ def write_pam(matrix, matrix_size, out, scale=1, border=None, dark='#000', light
         raise ValueError(f'Invalid stroke color "{dark}"')
     width, height, border = _valid_width_height_and_border(matrix_size, scale, border)
     row_iter = matrix_iter(matrix, matrix_size, scale, border)
-    depth, maxval, tuple_type = 1, 1, 'BLACKANDWHITE'
-    transparency = False
-    stroke_color = _color_to_rgb_or_rgba(dark, alpha_float=False)
-    bg_color = _color_to_rgb_or_rgba(light, alpha_float=False) if light is not None else None
-    colored_stroke = not (_color_is_black(stroke_color) or _color_is_white(stroke_color))
-    if bg_color is None:
-        tuple_type = 'GRAYSCALE_ALPHA' if not colored_stroke else 'RGB_ALPHA'
-        transparency = True
-        bg_color = _invert_color(stroke_color[:3])
-        bg_color += (0,)
-        if len(stroke_color) != 4:
-            stroke_color += (255,)
-    elif colored_stroke or not (_color_is_black(bg_color) or _color_is_white(bg_color)):
-        tuple_type = 'RGB'
-    is_rgb = tuple_type.startswith('RGB')
-    colours = None
-    if not is_rgb and transparency:
-        depth = 2
-        colours = (b'\x01\x00', b'\x00\x01')
-    elif is_rgb:
-        maxval = max(chain(stroke_color, bg_color))
-        depth = 3 if not transparency else 4
-        fmt = f'>{depth}B'.encode('ascii')
-        colours = (pack(fmt, *bg_color), pack(fmt, *stroke_color))
-    row_filter = invert_row_bits if colours is None else partial(row_to_color_values, colours=colours)
+    stroke_color = _color_to_rgba(dark, alpha_float=False)
+    if light is not None:
+        bg_color = _color_to_rgba(light, alpha_float=False)
+    else:
+        # Transparent background
+        bg_color = _invert_color(stroke_color[:3]) + (0,)
+    transparency = stroke_color[3] != 255 or bg_color[3] != 255
+    is_rgb = not all(clr[:3] in ((0, 0, 0), (255, 255, 255)) for clr in (stroke_color, bg_color))
+    if is_rgb:
+        depth, maxval, tuple_type = (3, 255, 'RGB') if not transparency else (4, 255, 'RGB_ALPHA')
+        colours = tuple(pack(f'>{depth}B'.encode('ascii'), *clr[:depth]) for clr in (bg_color, stroke_color))
+    else:
+        # Black / white: sample 0 = black, MAXVAL = white
+        maxval = 1 if all(clr[3] in (0, 255) for clr in (stroke_color, bg_color)) else 255
+        depth, tuple_type = (1, 'BLACKANDWHITE') if not transparency else (2, 'GRAYSCALE_ALPHA')
+        colours = tuple(pack(f'>{depth}B'.encode('ascii'), *(clr[0] * maxval // 255, clr[3] * maxval // 255)[:depth])
+                        for clr in (bg_color, stroke_color))
+    row_filter = partial(row_to_color_values, colours=colours)
     with writable(out, 'wb') as f:
         write = f.write
         write('P7\n'
